@@ -147,6 +147,9 @@ class Index:
                 self.enums[c.name] = tab
         for n in amb:
             del self.enums[n]
+        # private attributes are identified by role and renamed to the names the rules use (see core/canon.py)
+        from . import canon
+        self.renamed = canon.apply(self, canon.discover(self))
 
     # -- enumeration -----------------------------------------------------------------
     def all_classes(self):
